@@ -73,11 +73,13 @@ SweepShapeWhy(e) ==
 \* divides 2^32.  (Each outcome was seen many times - outcomes * 64 <= probes - so no class was missed by the probes.)
 OpaqueWhys(e) ==
   IF e.unann = 0 THEN <<"ok">>
-  ELSE <<IF e.rereads = 0 /\ e.outcomes >= 2 /\ e.outcomes * 64 <= e.probed /\ ~IsPow2Int(e.outcomes)
+  \* (both rules need the reads to be attributable: code that fetches several words in one read - e.prefetch - consumes a
+  \* further, already fetched word after a rejection without reading again, so "no re-read" proves nothing there)
+  ELSE <<IF e.prefetch = 0 /\ e.rereads = 0 /\ e.outcomes >= 2 /\ e.outcomes * 64 <= e.probed /\ ~IsPow2Int(e.outcomes)
            THEN "prop:a-choice-among-a-non-power-of-two-number-of-alternatives-is-made-from-a-raw-word-without-rejection" ELSE "ok",
          \* information rule: the `random' scheme makes one binary choice per word (WordGen!CapChoices); those that no
          \* bounded draw announced must come out of the unannounced words - 2^k equally likely patterns need k fresh bits
-         IF e.baseKind = "ok" /\ e.cap = "random" /\ e.len - e.coins > 32 * e.unann
+         IF e.prefetch = 0 /\ e.baseKind = "ok" /\ e.cap = "random" /\ e.len - e.coins > 32 * e.unann
            THEN "prop:more-equally-likely-binary-choices-than-fresh-random-bits-were-read" ELSE "ok",
          "shape:random-source-read-without-an-announced-bounded-draw">>
 
